@@ -219,6 +219,8 @@ def build(spec, decorate=None, on_action=None, budget=30):
   acts = spec.get("acts") or {}
   ENTRY, EXIT, INIT = signals.ENTRY_SIGNAL, signals.EXIT_SIGNAL, signals.INIT_SIGNAL
   REFL = signals.REFLECTION_SIGNAL
+  SEARCH = signals.SEARCH_FOR_SUPER_SIGNAL
+  faults = spec.get("faults") or None
   signums = {}
   for s in spec["sigs"]:
     signals.append(s)
@@ -240,6 +242,15 @@ def build(spec, decorate=None, on_action=None, budget=30):
     status = None
     if rt.keep_raw and sig != REFL:
       rt.raw.append(("call", e.signal_name, i))
+    if faults:
+      f = faults.get(str(i))
+      if f == "none_exit" and sig == EXIT:
+        return None                      # malformed: no status for the exit event (C24)
+      if f in ("none_search", "none_search_set") and sig == SEARCH:
+        if f == "none_search_set":
+          p = parent[i]
+          chart.temp.fun = chart.top if p == -1 else fns[p]
+        return None                      # malformed: no status for the super-state probe (C24)
     if sig == ENTRY:
       if has_entry[i]:
         rt.log.append(("ENTRY", i))
